@@ -223,6 +223,8 @@ class H2Server:
         self.big_once_done = False
         self.closed = False
         self.protocol_error = None
+        self.answered_ordinals: set[int] = set()
+        self.deferred: dict[int, list] = {}
         self.out_frames = 0
         self.mut_done = False
         self.mut_close = False
@@ -484,6 +486,11 @@ class H2Server:
                     if r is not None:
                         r.dropped = True
                         r.was_reset = True
+                        # a reset request will never be answered: whoever waited for it is answered now
+                        self.answered_ordinals.add(r.ordinal)
+                        for r2, p2 in self.deferred.pop(r.ordinal, []):
+                            if not getattr(r2, "dropped", False):
+                                self._send_head(r2, p2)
                     self.held = [(r2, p) for r2, p in self.held if r2.stream_id != sid]
                 except h2.exceptions.ProtocolError:
                     pass
@@ -524,6 +531,12 @@ class H2Server:
     def _answer(self, req: Req) -> None:
         o = self.origin
         resp = o.responder(req, o)
+        defer = self.script.get("defer") or {}
+        trig = defer.get(str(req.ordinal), defer.get(req.ordinal))
+        if trig is not None and trig not in self.answered_ordinals:
+            # long-poll style dependency: this request is answered only once request `trig` has been answered
+            self.deferred.setdefault(int(trig), []).append((req, resp))
+            return
         hold = self.script.get("hold")
         if hold and not self.released:
             self.held.append((req, resp))
@@ -554,6 +567,8 @@ class H2Server:
         resp.sent_headers = hs
         o.record(req, resp)
         req.answered = True
+        self.answered_ordinals.add(req.ordinal)
+        waiting = self.deferred.pop(req.ordinal, [])
         body = b"" if resp.no_body else resp.body
         try:
             self.conn.send_headers(sid, [(b":status", b"%d" % resp.status)] + hs, end_stream=not body and not resp.trailers)
@@ -565,6 +580,9 @@ class H2Server:
         else:
             self.pending_out[sid] = {"data": body, "pos": 0, "resp": resp, "truncate": resp.truncate}
         self._flush(resp.delay)
+        for r2, p2 in waiting:
+            if not getattr(r2, "dropped", False):
+                self._send_head(r2, p2)
 
     def _pump(self) -> None:
         """Send as much pending response DATA as the client's windows allow."""
